@@ -225,8 +225,15 @@ class Model:
         return (e[0],) + tuple(self._shift(a) for a in e[1:])
 
     def nl(self):
-        nv = len(self.vars); nint = sum(1 for v in self.vars if v[2])
-        assert all((not self.vars[i][2]) or self.vars[i + 1][2] for i in range(nv - 1)), 'continuous first'
+        nv = len(self.vars)
+        # NL variable order: nonlinear in both [cont, int], in constraints only [cont, int], in objectives only
+        # [cont, int], linear [cont, int].  A variable tuple may carry a 5th element: class 'b' (default) | 'c' | 'o' | 'l'.
+        cls = [(v[4] if len(v) > 4 else 'b') for v in self.vars]
+        key = [('bcol'.index(c), bool(v[2])) for c, v in zip(cls, self.vars)]
+        assert key == sorted(key), 'variables must be listed in NL order (class b<c<o<l, continuous before integer inside a class)'
+        cnt = lambda c, i=None: sum(1 for k, v in zip(cls, self.vars) if k == c and (i is None or bool(v[2]) == i))
+        nlvb = cnt('b'); nlvc = nlvb + cnt('c'); nlvo = (nlvc + cnt('o')) if cnt('o') else nlvb
+        nlvbi, nlvci, nlvoi, nlin_int = cnt('b', True), cnt('c', True), cnt('o', True), cnt('l', True)
         nc = len(self.acons); nl = len(self.lcons); no = len(self.objs)
         nranges = sum(1 for (_, _, lb, ub) in self.acons if lb > -INF and ub < INF and lb != ub)
         neq = sum(1 for (_, _, lb, ub) in self.acons if lb == ub)
@@ -237,9 +244,9 @@ class Model:
         L.append(' %d %d %d %d %d %d' % (nv, nc, no, nranges, neq, nl))
         L.append(' %d %d 0 %d 0 0' % (nc, no, ncompl))    # nonlinear cons, objs; compl: lin, nonlin, nd, nzlb
         L.append(' 0 0')
-        L.append(' %d %d %d' % (nv, nv, nv))
+        L.append(' %d %d %d' % (nlvc, nlvo, nlvb))
         L.append(' 0 0 0 1')
-        L.append(' 0 0 %d 0 0' % nint)
+        L.append(' 0 %d %d %d %d' % (nlin_int, nlvbi, nlvci, nlvoi))
         L.append(' %d %d' % (nzJ, nzG))
         L.append(' 0 0')
         L.append(' %d 0 0 0 0' % nd)
@@ -272,7 +279,7 @@ class Model:
                 elif lb == ub: L.append('4 ' + fmtnum(lb))
                 else: L.append('0 %s %s' % (fmtnum(lb), fmtnum(ub)))
         L.append('b')
-        for (lb, ub, isint, step) in self.vars:
+        for (lb, ub, isint, step) in (v[:4] for v in self.vars):
             if lb == -INF and ub == INF: L.append('3')
             elif lb == -INF: L.append('1 ' + fmtnum(ub))
             elif ub == INF: L.append('2 ' + fmtnum(lb))
@@ -299,7 +306,7 @@ class Model:
     # ------------------------------------------------------------------ reference semantics
     def grid(self):
         axes = []
-        for (lb, ub, isint, step) in self.vars:
+        for (lb, ub, isint, step) in (v[:4] for v in self.vars):
             pts = []; n = int(round((ub - lb) / step))
             for i in range(n + 1): pts.append(lb + i * step)
             axes.append(pts)
@@ -370,7 +377,7 @@ class Model:
 
     def describe(self):
         parts = []
-        for i, (lb, ub, isint, step) in enumerate(self.vars):
+        for i, (lb, ub, isint, step) in enumerate(v[:4] for v in self.vars):
             parts.append('x%d:%s[%s,%s]' % (i, 'int' if isint else 'cont', fmtnum(lb), fmtnum(ub)))
         for k, (lin, e) in enumerate(self.dvars):
             parts.append('dv%d=%s+%s' % (k, expr_str(e) if e is not None else '0', lin))
